@@ -718,8 +718,127 @@ def tab_shard(item, deadline):
 
 # ----------------------------------------------------------------------------- entry points
 
+# ----------------------------------------------------------------------------- header objects that are not fresh
+
+LOUD = {"seg": True, "mor": True, "sa": True, "nak": True, "srv": True, "maxsegs": 7, "maxresp": 15, "invoke": 0xFF,
+        "seq": 0xFF, "win": 0x7F, "service": 0xFF, "reason": 0xFF}
+
+
+def stale_cases():
+    """A few headers of every type (every flag combination, both backgrounds)."""
+    out = []
+    for t in range(8):
+        seen = set()
+        for f, stray in star_cases(t):
+            key = tuple(sorted((k, v) for k, v in f.items() if isinstance(v, bool) or k in ("type", "maxsegs")))
+            if key in seen:
+                continue
+            seen.add(key)
+            out.append(f)
+    return out
+
+
+def encode_with_foreign_fields(path, f, payload):
+    """Every attribute that is NOT a field of f's type is set to a loud value first (what a header object that was used
+    for another PDU before looks like); -> ("octets", bytes) or ("raises", name)"""
+    own = set(ref.fields_of(f["type"], f.get("seg", False)))
+    try:
+        if path == "typed":
+            a0 = make_typed(f, None)
+        else:
+            a0 = bp.APCI() if path == "APCI" else bp.APDU()
+        for key, attr in ATTR:
+            if key not in own:
+                setattr(a0, attr, LOUD[key])
+        if path != "typed":
+            set_generic(a0, f, None)
+        if path == "APCI":
+            pdu = PDU()
+            a0.encode(pdu)
+        elif path == "APDU":
+            a0.put_data(payload)
+            pdu = PDU()
+            a0.encode(pdu)
+        else:
+            a0.put_data(payload)
+            a = bp.APDU()
+            a0.encode(a)
+            pdu = PDU()
+            a.encode(pdu)
+    except Exception as err:
+        return ("raises", type(err).__name__)
+    return ("octets", bytes(pdu.pduData))
+
+
+def reuse_decode(path, first, second):
+    """Decode two frames one after the other into ONE header object, then encode it again.
+    -> ("ok", fields, octets) | ("raises", name)"""
+    try:
+        a = bp.APCI() if path == "APCI" else bp.APDU()
+        a.decode(PDU(first))
+        a.decode(PDU(second))
+        got = read_fields(a)
+        pdu = PDU()
+        a.encode(pdu)
+    except Exception as err:
+        return ("raises", type(err).__name__)
+    return ("ok", got, bytes(pdu.pduData))
+
+
+def judge_reuse(fa, fb, payload):
+    problems = {}
+    ha, hb = ref.build_header(fa), ref.build_header(fb)
+    for path in ("APCI", "APDU"):
+        pl = payload if (path == "APDU" and ref.CARRIES_DATA[fb["type"]]) else b""
+        pla = payload if (path == "APDU" and ref.CARRIES_DATA[fa["type"]]) else b""
+        r = reuse_decode(path, ha + pla, hb + pl)
+        if r[0] == "raises":
+            problems.setdefault(("reuse", "raises-" + r[1]), []).append(path)
+            continue
+        # only the fields of the second header are looked at: what the object still holds of the first one in attributes
+        # the second type does not have is nobody's business as long as it does not reach the wire again
+        for bad in field_problems(fb, r[1]):
+            if not bad.endswith("-set-although-not-in-this-header"):
+                problems.setdefault(("reuse", "second-decode-into-the-same-object:" + bad), []).append(path)
+        if r[2] != hb + pl:
+            problems.setdefault(("reuse", "re-encoding-after-second-decode-differs"), []).append(path)
+    return problems
+
+
+def stale_shard(item, deadline):
+    tier, seed, lo, hi = item
+    acc = Acc()
+    cases = stale_cases()
+    payload = payloads(seed)[1]
+    for i in range(lo, min(hi, len(cases))):
+        f = cases[i]
+        name = NAMES[f["type"]]
+        header = ref.build_header(f)
+        for path in PATHS:
+            acc.case(("stale", i, path))
+            enc = encode_with_foreign_fields(path, f, payload)
+            want = header + (b"" if path == "APCI" or not ref.CARRIES_DATA[f["type"]] else payload)
+            if enc[0] == "raises":
+                acc.fail(signature("stale", name, "encode-with-foreign-fields-set:raises-" + enc[1], [path]),
+                         {"fields": f, "path": path}, {"part": "stale", "f": f, "path": path})
+            elif enc[1] != want and not (not ref.CARRIES_DATA[f["type"]] and enc[1][:len(header)] == header and path != "APCI"):
+                acc.fail(signature("stale", name, "encode-with-foreign-fields-set:octets-differ", [path]),
+                         {"fields": f, "path": path, "emitted": enc[1][:8].hex(), "reference": want[:8].hex()},
+                         {"part": "stale", "f": f, "path": path})
+        for j, g in enumerate(cases):
+            acc.case(("reuse", j, i))
+            problems = judge_reuse(g, f, payload)
+            for (kind, what), paths in problems.items():
+                acc.fail(signature(kind, name, what + ":after-" + NAMES[g["type"]], paths),
+                         {"first decoded": g, "then decoded": f, "paths": paths}, {"part": "reuse", "first": g, "second": f})
+        acc.outcome("stale:%s:ok" % name)
+    return acc
+
+
 def shard(item, deadline):
     part = item[0]
+    if part == "stale":
+        return stale_shard(item[1:], deadline)
     if part == "tab":
         return tab_shard(item[1:], deadline)
     if part == "hdr":
@@ -752,6 +871,9 @@ def run(tier, seed, deadline):
     items = [("tab",)]
     items += [("hdr", kind, t, fixed, tier, seed) for (kind, t, fixed) in header_blocks(tier)]
     third = tuple(range(256)) if tier == "thorough" else octet_alphabet(tier)
+    n_stale = len(stale_cases())
+    items += [("stale", tier, seed, lo, lo + 8) for lo in range(0, n_stale, 8)]
+    acc.info["headers in the stale/reuse part"] = n_stale
     items += [("tot", None, third, tier, seed)]
     items += [("tot", first, third, tier, seed) for first in range(256)]
     run_shards(shard, items, deadline, into=acc)
@@ -776,6 +898,17 @@ def replay(case):
             lines.append("%-5s decode -> %s" % (p, {k: v for k, v in dec[1].items() if v is not None} if dec[0] == "header" else dec))
         lines.append("problems: %r" % (sorted(problems.items()),))
         return not problems, "\n".join(lines)
+    if part == "stale":
+        f = dict(case["f"])
+        enc = encode_with_foreign_fields(case["path"], f, b"\xC3")
+        header = ref.build_header(f)
+        ok = enc[0] == "octets" and enc[1][:len(header)] == header
+        return ok, "fields=%r path=%s, every other attribute set loud first\nreference header %s\nemitted %r" % (
+            f, case["path"], header.hex(), enc[1].hex() if enc[0] == "octets" else enc)
+    if part == "reuse":
+        fa, fb = dict(case["first"]), dict(case["second"])
+        problems = judge_reuse(fa, fb, b"\xC3")
+        return not problems, "decode %r then %r into one object\nproblems=%r" % (fa, fb, sorted(problems.items()))
     if part == "tot":
         data = case["data"]
         problems, obs, label = judge_string(data)
